@@ -3,8 +3,18 @@
 import os, subprocess, sys
 B = os.environ.get("VERIF_BUILD", "/verif/build")
 H = B + "/harness"
-SIM = ("-fsanitize=thread -mllvm -tsan-instrument-memory-accesses=0 -mllvm -tsan-instrument-func-entry-exit=0 "
+SIM = ("-fsanitize=thread -mllvm -tsan-instrument-func-entry-exit=0 "
        "-mllvm -tsan-instrument-memintrinsics=0 -mllvm -tsan-handle-cxx-exceptions=0")
+import hashlib, shutil
+stamp = hashlib.sha1((SIM + open("/verif/harness/CMakeLists.txt").read()).encode()).hexdigest()
+try:
+    old = open(H + "/flags.stamp").read()
+except OSError:
+    old = ""
+if old != stamp and os.path.isdir(H):
+    shutil.rmtree(H)    # compile flags changed: configure from scratch
+os.makedirs(H, exist_ok=True)
+open(H + "/flags.stamp", "w").write(stamp)
 if not os.path.exists(H + "/build.ninja"):
     r = subprocess.call(["cmake", "-G", "Ninja", "-S", "/verif/harness", "-B", H,
         "-DCMAKE_CXX_COMPILER=clang++-14", "-DCMAKE_BUILD_TYPE=Release",
